@@ -23,7 +23,9 @@ func TestDebugReplay(t *testing.T) {
 		if st.Kind == dbgen.KReopen {
 			fmt.Printf("   before close: size=%d (mod chunk %d) state off=%d\n", s.DB.Store.Size(), s.DB.Store.Size()%uint64(replayChunk()), s.DB.GetState().Off)
 			store := s.DB.Store
-			defer func() { fmt.Printf("   after close: size=%d (mod chunk %d)\n", store.Size(), store.Size()%uint64(replayChunk())) }()
+			defer func() {
+				fmt.Printf("   after close: size=%d (mod chunk %d)\n", store.Size(), store.Size()%uint64(replayChunk()))
+			}()
 		}
 		res := s.Apply(st)
 		sc, ic := s.DB.GetState().Meta.VerifChains()
